@@ -15,6 +15,32 @@ def builder_fn(name, root=None):
     return A.find_fn(OCT, name, self_ty="OctreeBuilder", root=root)
 
 
+def _own_trace(fn, tv):
+    """the one `eval.simplify(T, ..)` takes T from `Some(T)` of this cell's own trace option, and every other
+    value of that choice is the parent handle `eval` unchanged"""
+    calls = [c for c in A.find(fn["body"], "MethodCall") if c["method"] == "simplify" and A.ident(A.strip(c["recv"])) == "eval" and c["args"]]
+    if len(calls) != 1:
+        return False
+    c = calls[0]
+    tname = A.ident(A.strip(c["args"][0]))
+    srcs = []
+    for pat, scr in A.enclosing_patterns(fn["body"], c) or []:
+        srcs += A.some_sources(pat, scr)
+    if (tname, tv) not in srcs:
+        return False
+    # the outermost choice that is still a *value* (stops at the let / statement that takes it)
+    cands = [cand for cand in list(A.find(fn["body"], "If")) + list(A.find(fn["body"], "Match")) if any(n is c for n in A.walk(cand))]
+    lets = [l for l in A.find(fn["body"], "Let") if l.get("init") is not None and any(n is c for n in A.walk(l["init"]))]
+    if lets:
+        inner = min(lets, key=lambda l: sum(1 for _ in A.walk(l)))
+        cands = [cand for cand in cands if any(n is cand for n in A.walk(inner["init"]))]
+    if not cands:
+        return False
+    holder = max(cands, key=lambda x: sum(1 for _ in A.walk(x)))
+    others = [l for l, _cx in A.branch_leaves(holder) if not any(n is c for n in A.walk(l))]
+    return bool(others) and all(A.ident(A.strip(A.unblock(l))) == "eval" for l in others)
+
+
 def r3_cells(rule, root=None):
     """region classification and leaf corner sampling"""
     from .. import raster as R
@@ -45,7 +71,7 @@ def r3_cells(rule, root=None):
         rule.ok("the cell's box is evaluated as (X, Y, Z) bounds through the mesh transform")
     else:
         rule.bad("recurse|bounds", "the interval evaluation must receive cell.bounds[X], [Y], [Z] in that order, the transform and the vars", A.where(fn))
-    if "ifletSome(trace)=%s.as_ref(){eval.simplify(trace,&mutself.workspace,&mutself.shape_storage,&mutself.tape_storage)}else{eval}" % tv in t:
+    if "ifletSome(trace)=%s.as_ref(){eval.simplify(trace,&mutself.workspace,&mutself.shape_storage,&mutself.tape_storage)}else{eval}" % tv in t or _own_trace(fn, tv):
         rule.ok("children use the handle simplified with this cell's own trace")
     else:
         rule.bad("recurse|trace", "simplification must use the trace returned by this cell's interval evaluation", A.where(fn))
